@@ -28,7 +28,7 @@ import (
 func VerifC01_PassCountsDaemonOverhead() {
 	w := pwNew(&opopts.Options{})
 	w.addPool("pool-1", 0)
-	w.addType("it-l", resource.MustParse("16"), []pwOffer{{"zone-1", v1.CapacityTypeOnDemand, 1, true}, {"zone-2", v1.CapacityTypeOnDemand, 1, true}})
+	w.addType("it-l", resource.MustParse("16"), []pwOffer{{zone: "zone-1", ct: v1.CapacityTypeOnDemand, price: 1, available: true}, {zone: "zone-2", ct: v1.CapacityTypeOnDemand, price: 1, available: true}})
 	alloc := verifrt.MilliQuantity("node.cpu", 0, 16000)
 	w.addNode("node-1", "pool-1", "it-l", v1.CapacityTypeOnDemand, "zone-1", pwList(alloc), pwInitialized)
 
